@@ -77,6 +77,14 @@ CLAIMED.update({
         tech='bounded model checking of the real code (Kani/CBMC), stand-in: no contract within reach of Verus (str) or of a complete Kani harness'),
 })
 
+CLAIMED.update({
+    'C20': dict(
+        cat='proof', ref='DESIGN 4/C20',
+        text='simple_redirect and write_headers (real text, instantiated at the slice writer W := &mut [u8] the crate recommends for async use, and I := &[(&[u8], &[u8])]) verified by Verus: with enough room the destination receives exactly `Location: <loc>\\n\\n`, resp. the status line, one `name: value` line per header in the given order and a blank line (loop invariant over the header list, nested-prophecy frame on the destination), the returned count is exactly the number of bytes written, and with too little room the result is an error, never a success report.',
+        note='Instantiation (R10) instead of the generic impl Write / IntoIterator; io::Error abstracted to a unit error; the status line prefix (`Status: ` + StatusCode::as_str() + space) and canonical_reason() are http-crate externals with uninterpreted digits/reason (so `<code>` being the decimal code and the reason phrases are assumed, not proved); byte-string literals enter through literal wrappers whose @@sub anchors contain the literal text (an edited literal is a lost anchor = undecided); <&mut [u8] as Write>::write_all contract trusted (all-or-error). Other writers (Vec, BufWriter) are covered only through the Write contract.',
+        tech=TECH_V),
+})
+
 NA = {
     'C07': 'async connection loop (Token::run / parse_request / close) under all transport schedules: async fn, Pin, Context and generic AsyncRead/AsyncWrite are outside the Verus dialect and Kani diverges on the real async code (probe: no result in 15 min); no per-call contract within reach expresses the property',
     'C08': 'liveness / absence of a wait-for cycle between server task and peer: a whole-history property under a waker-driven executor; contracts on single calls cannot express it',
@@ -87,7 +95,6 @@ NA = {
     'C14': 'shutdown ordering under thread interleavings of Arc drops and waker registration: same as C13',
 }
 PENDING = {
-    'C20': 'generic writers over impl Write / IntoIterator and http::StatusCode are outside the Verus dialect; under Kani write_headers does not finish within 400 s even for status 200 with <= 2 two-byte headers (StatusCode tables, canonical_reason); only simple_redirect has a (bounded) harness, which does not decide the property, so it is not claimed',
 }
 
 
